@@ -17,6 +17,7 @@ import (
 	"gopkg.in/yaml.v2"
 
 	"dvh/internal/corekit"
+	"dvh/internal/crashstore"
 	"dvh/internal/memstore"
 
 	"github.com/oneconcern/datamon/pkg/core"
@@ -454,11 +455,26 @@ func c11CloneEnv(e *corekit.Env) *corekit.Env {
 //
 // The bundle is then downloaded: every entry must come with the bytes that were uploaded under its hash.
 func c11Commit(env *corekit.Env, repo, diamondID string, mode model.ConflictMode, byHash map[string][]byte) string {
-	d := core.NewDiamond(repo, env.Stores,
+	return c11CommitOpt(env, repo, diamondID, mode, byHash, false)
+}
+
+// c11CommitOpt: with retry, the first Commit of the Diamond object fails on a transient read fault
+// (a split index file cannot be fetched) and Commit is called again on the SAME object.
+func c11CommitOpt(env *corekit.Env, repo, diamondID string, mode model.ConflictMode, byHash map[string][]byte, retry bool) string {
+	stores := env.Stores
+	g := &crashstore.Group{}
+	if retry {
+		g.FailReadOp, g.FailReadKey, g.FailReadAt = "get", "/splits/", 1
+		stores = corekit.WithStores(env.Wal, env.ReadLog, env.Blob, crashstore.Wrap(g, "meta", env.Meta), crashstore.Wrap(g, "vmeta", env.VMeta))
+	}
+	d := core.NewDiamond(repo, stores,
 		core.DiamondDescriptor(model.NewDiamondDescriptor(model.DiamondID(diamondID), model.DiamondMode(mode))),
 		core.DiamondMessage("verif"), core.DiamondLogger(corekit.Nop))
 	c11Page++
 	err := corekit.Recover(func() error { return d.Commit(core.BatchSize(c11Pages[c11Page%len(c11Pages)])) })
+	if retry && err != nil && g.Reads() >= 1 {
+		err = corekit.Recover(func() error { return d.Commit(core.BatchSize(c11Pages[c11Page%len(c11Pages)])) })
+	}
 	if err != nil {
 		if corekit.ErrClass(err) == "panic" {
 			return "panic"
@@ -579,6 +595,11 @@ func c11E2E(c *ctx) error {
 				files[c11Paths[p]] = c11Content(c.rng.Intn(pool))
 			}
 		}
+		if s < ns-1 && c.rng.Intn(5) == 0 {
+			// a split that completes with nothing in it (an empty directory, a filter matching nothing)
+			files = map[string][]byte{}
+			c.w.Count("e2e:empty-split")
+		}
 		id := fmt.Sprintf("s%d", s+1)
 		uploaded[id] = files
 		if err := c11UploadSplit(env, repo, dd.DiamondID, id, files); err != nil {
@@ -607,6 +628,12 @@ func c11E2E(c *ctx) error {
 			res += fmt.Sprintf(" ## trig=%d", c11Bit(c11Trigger(bs)))
 		}
 		c.w.Op(fmt.Sprintf("e2e mode=%s splits=%s", m.name, c11ShowBatches(bs)), res)
+		// the same commit, retried on the same Diamond object after a transient read fault
+		res2 := c11CommitOpt(c11CloneEnv(env), repo, dd.DiamondID, m.mode, byHash, true)
+		if strings.HasPrefix(res2, "ok ") {
+			res2 += fmt.Sprintf(" ## trig=%d", c11Bit(c11Trigger(bs)))
+		}
+		c.w.Op(fmt.Sprintf("e2e mode=%s splits=%s retried=1", m.name, c11ShowBatches(bs)), res2)
 		c.w.Count("op=e2e")
 		c.w.Count(fmt.Sprintf("e2e:splits=%d", ns))
 	}
